@@ -2,6 +2,7 @@ import Carquet.Proofs.DeltaTop
 import Carquet.Proofs.DeltaBytes
 import Carquet.Proofs.DeltaSpecEnc
 import Carquet.Gen.DeltaConstants
+import Carquet.Proofs.DeltaBytesCap
 /-
 C12 — encoded bytes follow the Parquet encoding specification: DELTA_BINARY_PACKED.
 Property statements only; helper lemmas live in Carquet/Proofs/Delta*.lean.
@@ -263,5 +264,24 @@ example : Spec.Delta.decodeByteArray (Spec.Delta.encodeByteArray {} {} (fun _ =>
     Impl.DeltaLength.decode (Spec.Delta.encodeLengthByteArray {} [[7], [], [8, 9]]) 3 =
       .ok ([[7], [], [8, 9]], (Spec.Delta.encodeLengthByteArray {} [[7], [], [8, 9]]).length) := by
   refine ⟨?_, ?_, ?_⟩ <;> decide +kernel
+
+/-- carquet → specification for the byte-array encodings without a condition on the encoder's
+status: for every non-empty list of byte arrays (each shorter than 2 GiB) both encoders succeed
+(`C11_delta_bytes_encode_succeeds`) and the reference decoders recover exactly the input from what
+they wrote, leaving what follows. -/
+theorem C12_delta_bytes_impl_to_spec_total (vs : List (List UInt8)) (tail : List UInt8) (hne : vs ≠ [])
+    (hlen : vs.length ≤ 2147483647) (hv : ∀ v ∈ vs, v.length < 2 ^ 31) :
+    (∃ bs, Impl.DeltaLength.encode vs = .ok bs ∧
+       Spec.Delta.decodeLengthByteArray (bs ++ tail) = .ok (vs, tail)) ∧
+    (∃ bs, Impl.DeltaStrings.encode vs = .ok bs ∧
+       Spec.Delta.decodeByteArray (bs ++ tail) = .ok (vs, tail)) := by
+  obtain ⟨b1, h1⟩ := Impl.DeltaLength.encode_succeeds vs hne hlen
+  obtain ⟨b2, h2⟩ := Impl.DeltaStrings.encode_succeeds vs hne hlen
+  exact ⟨⟨b1, h1, Impl.DeltaLength.to_spec vs b1 tail hne hlen hv h1⟩,
+         ⟨b2, h2, Impl.DeltaStrings.to_spec vs b2 tail hne hlen hv h2⟩⟩
+
+example : ∃ bs, Impl.DeltaStrings.encode [[1, 2, 3], [1, 2, 4, 5], [], [1, 2]] = .ok bs ∧
+    Spec.Delta.decodeByteArray bs = .ok ([[1, 2, 3], [1, 2, 4, 5], [], [1, 2]], []) := by
+  refine ⟨_, rfl, ?_⟩; decide +kernel
 
 end Carquet.Properties.C12
